@@ -2,6 +2,7 @@
 Proof layer: coq/Properties/C18.v.  Correspondence: the extracted codec model vs the real
 Scenario.sceneToBytes/sceneFromBytes bit-exactly, every truncation, sampled corruptions, replays."""
 import concurrent.futures as cf
+import time
 import json
 import os
 import sys
@@ -414,10 +415,14 @@ def main():
                      "distributions, shared values, big integers at every width boundary, behaviours drawing at run time); "
                      "a case is non-trivial when its encoding has a body (at least one sampled value) and distinct by the hash "
                      "of (program, sample bytes)")
+    phase = {}
+    t0 = time.time()
     common.ensure_parser()
     if not c.proofs():
         c.finish()
     exe = common.build_ocaml(PID)
+    phase["proofs+build"] = round(time.time() - t0, 1)
+    t0 = time.time()
     quick = c.tier == "quick"
     nprog = 48 if quick else 400
     rng = c.rng
@@ -439,6 +444,13 @@ def main():
         body = json.load(open(c.replay))
         jobs = [body["case"]["job"]] if "job" in body.get("case", {}) else jobs[:4]
 
+    # the implementation runs of the generated programs start now and proceed while the codec sweep runs
+    nw = int(os.environ.get("VERIF_WORKERS", common.NCPU))   # dev knob: fewer implementation processes on a shared machine
+    chunks = [jobs[i::nw] for i in range(nw)]
+    chunks = [ch for ch in chunks if ch]
+    impl_pool = cf.ThreadPoolExecutor(len(chunks))
+    impl_futures = [impl_pool.submit(common.run_impl, "impl_c18.py", dict(kind="programs", programs=ch), 7000) for ch in chunks]
+
     # ---- (1) direct codec sweep: integers across all width boundaries, truncated ints
     ints = set()
     for b in [0, 252, 253, 255, 256, 2 ** 15, 2 ** 16, 2 ** 31, 2 ** 32, 2 ** 63, 2 ** 64, 2 ** 255, 2 ** 2031, 2 ** 2032, 2 ** 2039, 2 ** 2040]:
@@ -458,7 +470,10 @@ def main():
             c.violation("correspondence", "write_int differs between model and implementation", dict(op="WI", z=str(z), impl=a, model=m))
         if a.startswith("SOME"):
             h = a.split()[1]
-            for cut in range(0, len(h) // 2 + 1):
+            L = len(h) // 2
+            # every truncation of short encodings; for the long (up to 257-byte) ones the first 12, the last 3 and 10 random cuts
+            cutset = range(0, L + 1) if L <= 24 else sorted(set(list(range(12)) + [L - 2, L - 1, L] + rng.sample(range(12, L - 2), 10)))
+            for cut in cutset:
                 rcases.append(["RI", h[:2 * cut] or "-"])
             rcases.append(["RI", h + "ab"])
     # random byte strings into readInt / readBytes
@@ -476,18 +491,21 @@ def main():
             c.violation("correspondence", f"{k} differs between model and implementation", dict(op=k, data=arg, impl=a, model=m))
     c.sample(dict(op=rcases[0], impl=impl[0], model=model[0]))
 
+    phase["codec-sweep"] = round(time.time() - t0, 1)
+    t0 = time.time()
     # ---- (2) programs through the real scenario codec
-    nw = int(os.environ.get("VERIF_WORKERS", common.NCPU))   # dev knob: fewer implementation processes on a shared machine
-    chunks = [jobs[i::nw] for i in range(nw)]
-    chunks = [ch for ch in chunks if ch]
     results = []
-    with cf.ThreadPoolExecutor(len(chunks)) as ex:
-        for r in ex.map(lambda ch: common.run_impl("impl_c18.py", dict(kind="programs", programs=ch), timeout=7000), chunks):
-            results += r["results"]
+    for fu in impl_futures:
+        results += fu.result()["results"]
+    impl_pool.shutdown()
+    phase["implementation"] = round(time.time() - t0, 1)
+    t0 = time.time()
     by_name = {j["name"]: j for j in jobs}
     skipped = 0
-    with cf.ThreadPoolExecutor(min(8, common.NCPU)) as ex:
+    with cf.ThreadPoolExecutor(int(os.environ.get("VERIF_WORKERS", common.NCPU))) as ex:
         mouts = dict(ex.map(lambda r: model_outputs(exe, r), results))
+    phase["model"] = round(time.time() - t0, 1)
+    t0 = time.time()
     for r in results:
         job = by_name.get(r.get("name"))
         if "crash" in r:
@@ -569,6 +587,8 @@ def main():
             check_replay(c, exe, job, r, rp, mouts[r["name"]][1])
         elif rp:
             c.hist("replay-skip")
+    phase["compare"] = round(time.time() - t0, 1)
+    c.cov["phase_s"] = phase
     c.cov["programs"] = len(results) - skipped
     c.cov["skipped_programs"] = skipped
     c.assumptions += [
